@@ -256,4 +256,24 @@ def link (env : Env) (items : List Item) : GMem :=
   let r := load items
   linkLoop env r.pl (items.zip r.pl) r.g
 
+/-! ## `MIR_load_module` on a module that is already loaded (every data item has its address)
+
+`load_bss_data_section (item)` with `item->addr != NULL` skips the allocation; its placement loop handles
+`item` itself (`curr_item == item`) and stops at the next item because that one has an address too, and
+returns `item`.  The driving loop therefore calls it for every data item in turn: each item is written
+again at the address it already has, nothing moves. -/
+
+def reloadLoop : List (Item × Option Placement) → GMem → GMem
+  | [], g => g
+  | (it, some p) :: rest, g =>
+    reloadLoop rest (setSec g p.sec (writeCells (g p.sec) p.off (loadCells it)))
+  | (_, none) :: rest, g => reloadLoop rest g
+
+/-- memory after loading the module a second time, starting from whatever the program left in `g` -/
+def reload (items : List Item) (g : GMem) : GMem := reloadLoop (items.zip (load items).pl) g
+
+/-- `MIR_link` after that -/
+def relink (env : Env) (items : List Item) (g : GMem) : GMem :=
+  linkLoop env (load items).pl (items.zip (load items).pl) (reload items g)
+
 end MirVerif.Section
